@@ -661,6 +661,13 @@ class Effects:
         return out
 
     def _emit(self, out, fn, kind, cell, op, recv_expr, node, value=None, note=""):
+        if kind == "RAW" and "." in cell:
+            # a derived store on a model object (a value recomputable from the object's own state) is not model state:
+            # whether every mutator keeps it up to date is decided by C02.derived, it needs no undo entry and no scope
+            from .rules import stores
+
+            if cell.split(".", 1)[1] in stores.store_attrs(self.prog):
+                return
         roots = self.roots_of(fn, recv_expr) if recv_expr is not None else frozenset([("unknown", "?")])
         out.append(Eff(kind, cell, op, roots, node, fn, recv=recv_expr, value=value, note=note))
 
